@@ -107,6 +107,13 @@ reg('C10',
     'mjx\'s regularisation constants and never below the true minimum), the normal from geom1 to geom2, the owning links (world = -1), the mean elasticity, and the reported pair set is the expected one. Sampling, not proof.',
     'closed forms written from scratch in NumPy; mjx (third party) regularisation constants enter the capsule tolerances', 'DESIGN.md section 4 C10')
 
+reg('C08',
+    'property-based testing (Hypothesis model generator): round-trip oracle inverse(world_to_joint(forward(q, qd))) = (q, qd) and consistency of the coordinates the spring/positional pipelines report, plus a forest-shape sweep',
+    'No counter-example among generated models with orthogonal stacks of either handedness (one joint kind, or slides then one hinge) x states inside the Euler chart: joint positions '
+    'round-trip at 1e-9 (1e-7 for stacked hinges: arccos conditioning), velocities of free links and single hinges at 1e-9; after 1-3 spring/positional steps the reported '
+    'q, qd, j, jd, a_p, a_c are exactly the images of the reported x, xd. Velocities of prismatic/stacked joints are matched against the recorded known finding. Sampling, not proof.',
+    'float64; supported-stack domain as stated by the property', 'DESIGN.md section 4 C08')
+
 PENDING = {}
 
 
